@@ -63,7 +63,7 @@ def run(ctx):
                "RETURN?, keyword case upper/lower, separator blank/tab/newline) wrapped in 8 ways (plain, padded, fenced with and without "
                "language tag, prose around a fence, prose lines, unclosed fence, prose on the same line)" % (1 if q else 2),
                "mutation is judged by executing the handed-back text with QueryEngine::execute_mut on a fresh copy of a fixed graph "
-               "(2 Person, 1 City, 1 KNOWS, property index, unique constraint, hierarchy index) and comparing full dumps incl. "
+               "(2 unconnected Person, 2 City joined by 1 KNOWS, property index, unique constraint, hierarchy index) and comparing full dumps incl. "
                "SHOW INDEXES / SHOW CONSTRAINTS / SHOW HIERARCHY INDEXES and the vector index list",
                "the language model is a local HTTP server speaking the Ollama API; a third of the cases go through POST /api/nlq",
                "the engine has no write procedures (CALL db.* / algo.* are read-only)")
